@@ -68,7 +68,7 @@ STATIC = {"/hm": [b"k1"], "/hm2": [b"k2a", b"k2b"], "/rot": [b"inl"], "/rot2": [
 
 FWD_CLASS = {"200": "F2xx", "204": "F2xx", "299": "F2xx", "200hdr": "F2xx", "302loc": "F2xx", "401": "F401", "403": "F403",
              "500": "FOther", "503": "FOther", "302": "FOther", "404": "FOther", "300": "FOther", "199": "FOther", "400": "FOther",
-             "hang": "FTimeout", "drop": "FUnreachable",
+             "hang": "FTimeout", "drop": "FUnreachable", "slow200": "F2xx", "slow403": "F403", "slow401": "F401", "slow500": "FOther", "slow302": "FOther",
              # final statuses below 200 written on the raw connection; raw100 = informational responses only, then the connection closes
              "raw101": "FOther", "raw099": "FOther", "raw000": "FOther", "raw100": "FUnreachable"}
 
@@ -84,9 +84,9 @@ class Gen:
         self.n += 1
         return "n%06d" % self.n
 
-    def add(self, route, tag, method, target, headers, body, now=None, fwd="", fail_at=0, half=False, cl=True, version="HTTP/1.1", host="hook.test"):
+    def add(self, route, tag, method, target, headers, body, now=None, fwd="", fail_at=0, half=False, cl=True, version="HTTP/1.1", host="hook.test", hangup=False):
         self.cases.append({"route": route, "tag": tag, "method": method, "target": target, "headers": headers, "body": body,
-                           "now": T0 * SEC if now is None else now, "fwd": fwd, "fail_at": fail_at, "half": half,
+                           "now": T0 * SEC if now is None else now, "fwd": fwd, "fail_at": fail_at, "half": half, "hangup": hangup,
                            "wire": G.wire(method, target, headers, body, host=host, content_length=cl, version=version)})
 
     # ---- HMAC
@@ -280,6 +280,13 @@ class Gen:
         self.add("/fwd", "fwd-hang", "PUT", "/fwd/sub", [], b"", fwd="hang")
         for beh in ("200", "401"):
             self.add("/fwdclosed", "fwd-closed-port", "POST", "/fwdclosed", [], b"{}", fwd=beh)
+        # the caller hangs up while the auth service is still deciding (it answers 150 ms later): nothing but a 2xx answer admits
+        for beh in ("slow403", "slow401", "slow500", "slow302"):
+            for body in (b"", b'{"x":1}'):
+                self.add("/fwd", "fwd-hangup-" + beh, "POST", "/fwd", [("X-Caller", "c1")], body, fwd=beh, hangup=True)
+        # and a slow decision with a patient caller
+        for beh in ("slow200", "slow403"):
+            self.add("/fwd", "fwd-" + beh, "POST", "/fwd", [("X-Caller", "c1")], b"{}", fwd=beh)
 
     def misc_family(self):
         self.add("/open", "open", "POST", "/open", [], b"{}")
@@ -673,7 +680,7 @@ def main(ctx, replay):
             for rt in ("/rot", "/rot2", "/hm"):
                 steps.append({"op": "select", "wire": json.dumps({"route": rt, "at": rot_points})})
         for c in b:
-            steps.append({"op": "req", "now": c["now"], "wire": G.b64(c["wire"]), "half": c["half"], "fwd": c["fwd"], "fail_at": c["fail_at"], "_c": c})
+            steps.append({"op": "req", "now": c["now"], "wire": G.b64(c["wire"]), "half": c["half"], "fwd": c["fwd"], "fail_at": c["fail_at"], "hangup": c.get("hangup", False), "_c": c})
         scen.append({"name": "rt%d" % bi, "configs": [text], "env": env, "steps": steps})
     rc, out, err = C.harness_run(info["hbin"], ["auth-run"], {"dir": os.path.join(ctx.scratch, "c08"), "scenarios": [strip(s) for s in scen]}, timeout=600)
     if rc != 0:
@@ -722,6 +729,16 @@ def main(ctx, replay):
                           "observed": {"status": io["status"], "queue_delta": delta, "enqueue_calls": io["calls"], "parsed": io.get("parsed"), "fwd": io.get("fwd")},
                           "how_to_replay": "./check C08 --replay <this file>"}
             # -- property, judged directly on what the implementation did
+            if c.get("hangup"):
+                # no status can be observed; the auth service never answered 2xx, so the queue must be untouched
+                dist["hangup_cases"] = dist.get("hangup_cases", 0) + 1
+                if io["status"] == -8:
+                    C.report(ctx, "forward-call:%s" % c["tag"], "the auth service was never asked", replay_obj)
+                if delta != 0 or io["calls"]:
+                    C.report(ctx, "forged-accepted:%s" % c["tag"],
+                             "the caller hung up while the forward-auth service was deciding (it answered %s 150 ms later): %d message(s) were enqueued (%d "
+                             "Store.Enqueue calls) although the auth service never answered 2xx" % (c["fwd"][4:], delta, len(io["calls"])), replay_obj)
+                continue
             if len(ok_calls) != delta or len(io["new_items"]) != delta:
                 C.report(ctx, "queue-accounting:%s" % c["tag"], "successful Store.Enqueue calls (%d), listing delta (%d) and Stats delta (%d) disagree" % (
                     len(ok_calls), len(io["new_items"]), delta), replay_obj)
